@@ -149,6 +149,7 @@ type Case struct {
 	Faults   []*simdisk.Fault `json:"faults,omitempty"`
 	Comp     *CompCase        `json:"comp,omitempty"` // component scenarios
 	MaxSteps int64            `json:"max_steps,omitempty"`
+	Life     string           `json:"life,omitempty"`
 }
 
 // Clone deep-copies a case through JSON.
